@@ -62,6 +62,19 @@ def templates(e: Env, st: Sites, level: str):
     out["IfChain(Sx|Sx|T)"] = lambda: ("IfChain", ((e.u(3), A["Sx"]()), (e.u(4), A["Sx"]())), A["T"]())
     out["IfChain(Sx|Sx|Sx)"] = lambda: ("IfChain", ((e.u(3), A["Sx"]()), (e.u(4), A["Sx"]())), A["Sx"]())
     out["IfChain(Sx|R|Sx)"] = lambda: ("IfChain", ((e.u(3), A["Sx"]()), (e.u(4), A["R"]())), A["Sx"]())
+    # stores inside the CONDITION of a branch / loop that itself starts an arm of an enclosing branch
+    def cS(v, c):
+        return ("Seq", ("Store", v, e.u(1)), c)
+    out["If[Sx]"] = lambda: ("If", cS("x", e.u(3)), A["T"]())
+    out["If(If[Sx])"] = lambda: ("If", e.u(3), ("If", cS("x", e.u(4)), A["T"]()))
+    out["If(If[Sx]|T)"] = lambda: ("If", e.u(3), ("If", cS("x", e.u(4)), A["T"]()), A["T"]())
+    out["If(T|If[Sx])"] = lambda: ("If", e.u(3), A["T"](), ("If", cS("x", e.u(4)), A["T"]()))
+    out["If(While[Sx])"] = lambda: ("If", e.u(3), ("While", cS("x", ("Bin", "Lt", st.load("x"), e.u(5))), ("Seq", AL["T"](), AL["B"]())))
+    out["While[Sx]"] = lambda: ("While", cS("x", ("Bin", "Lt", st.load("x"), e.u(5))), ("Seq", AL["T"](), AL["B"]()))
+    out["While(If[Sx];B)"] = lambda: ("While", e.u(5), ("Seq", ("If", cS("x", e.u(4)), AL["T"]()), AL["B"]()))
+    out["Cond(If[Sx]|T)"] = lambda: ("Cond", (e.u(3), ("If", cS("x", e.u(4)), A["T"]())), (e.u(4), A["T"]()))
+    out["IfChain(If[Sx]|T|T)"] = lambda: ("IfChain", ((e.u(3), ("If", cS("x", e.u(4)), A["T"]())), (e.u(4), A["T"]())), A["T"]())
+    out["If(If[Sy])"] = lambda: ("If", e.u(3), ("If", cS("y", e.u(4)), A["T"]()))
     out["IfValue"] = lambda: ("Store", "y", ("If", e.u(3), st.load("x"), ("Int", 0)))
     out["CondLoadInCond"] = lambda: ("If", st.load("x"), A["T"]())
     return out
@@ -96,4 +109,45 @@ def rw_family(mode: str, version: int, level: str, seed: int = 0, where: str = "
         else:
             out.append((name, prog(mode, ("Return", ("Call", "f", e.u(0))), dict(V),
                                    {"f": {"params": [("val", "n")], "ret": "u", "body": body}}), {}))
+    return out
+
+
+def alias_family(mode: str, version: int, level: str):
+    """the variable is (also) reachable indirectly: passed by reference to a routine that writes it, or
+    targeted by a dynamic variable; the indirect write is placed conditionally / unconditionally, before
+    or after the direct load"""
+    out = []
+    e = Env(mode, version)
+    subs = {"setx": {"params": [("ref", "r")], "ret": "n", "body": ("PStore", "r", e.u(1))},
+            "getx": {"params": [("ref", "r")], "ret": "u", "body": ("Return", ("PLoad", "r"))}}
+
+    def add(name, stmts, use_dyn=False, where="main"):
+        st = Sites()
+        body = ("Seq", e.tag(1)) + tuple(s(st) if callable(s) else s for s in stmts) + (("Return", st.load("x")),)
+        V = {"x": {"t": "u"}, "y": {"t": "u"}}
+        if use_dyn:
+            V["d"] = {"t": "u", "dyn": True}
+        if where == "main":
+            out.append(("rw-alias:%s" % name, prog(mode, body, V, dict(subs)), {}))
+        else:
+            ss = dict(subs)
+            ss["f"] = {"params": [("val", "n")], "ret": "u", "body": body}
+            out.append(("rw-alias:sub:%s" % name, prog(mode, ("Return", ("Call", "f", e.u(0))), V, ss), {}))
+
+    call = ("Call", "setx", ("Ref", "x"))
+    for where in ("main", "sub"):
+        add("ref-unconditional", [call], where=where)
+        add("ref-in-if", [("If", e.u(3), call)], where=where)
+        add("ref-in-if-else-store", [("If", e.u(3), call, ("Store", "x", e.u(2)))], where=where)
+        add("ref-in-if-else-tag", [("If", e.u(3), call, e.tag(3))], where=where)
+        add("ref-in-while", [("While", e.u(5), ("Seq", call, ("Break",)))], where=where)
+        add("ref-after-load", [lambda st: ("Un", "Pop", st.load("x")), call], where=where)
+        add("ref-read-only-callee", [("Un", "Pop", ("Call", "getx", ("Ref", "x")))], where=where)
+        add("store-then-ref-in-if", [("Store", "x", e.u(2)), ("If", e.u(3), call)], where=where)
+        add("ref-other-variable", [("Store", "y", e.u(2)), ("Call", "setx", ("Ref", "y"))], where=where)
+        add("dyn-unconditional", [("DynSet", "d", "x"), ("DynStore", "d", e.u(2))], True, where=where)
+        add("dyn-in-if", [("DynSet", "d", "x"), ("If", e.u(3), ("DynStore", "d", e.u(2)))], True, where=where)
+        add("dyn-set-only", [("DynSet", "d", "x")], True, where=where)
+        add("dyn-retargeted", [("DynSet", "d", "x"), ("Store", "y", e.u(1)), ("DynSet", "d", "y"), ("DynStore", "d", e.u(2))], True, where=where)
+        add("dyn-load-first", [("DynSet", "d", "x"), ("Un", "Pop", ("DynLoad", "d"))], True, where=where)
     return out
